@@ -12,6 +12,9 @@ import time
 HERE = os.path.dirname(os.path.abspath(__file__))
 VERIF = os.path.dirname(HERE)
 
+# Dropped after measurement (harness files keep them for reference, they are not registered):
+#   K02 disambiguate_short (32 GB), K04 State::construct (15 GB / >20 min), K08 roff escape (30 min cap even with concrete
+#   inputs), K12 ParseCommand::eval (CBMC out of memory: Info::default / run_subparser pull in Doc and rendering code).
 # harness name -> unit description
 UNITS = [
     # K01: helpers used by the Verus tier through assumed contracts
@@ -36,10 +39,6 @@ UNITS = [
          bound="`--ñ=v`, v any single byte"),
     dict(unit="K03.split_short_attached_value_with_eq", harness="k03_split_short_attached_value_with_eq", tags=["C02"], quick=False, complete=False,
          bound="`-cw=v`, c ASCII alphanumeric, w ASCII, v any byte"),
-    dict(unit="K02.disambiguate_short_two_letters", harness="k02_disambiguate_short_two_letters", tags=["C02"], quick=False, complete=False,
-         bound="clusters `-xy`, x,y in {a,b,c}, every subset of {a,b,c} as declared short flags and as declared short arguments"),
-    dict(unit="K04.construct_double_dash_3args", harness="k04_construct_double_dash_3args", tags=["C09", "C10", "C03"], quick=False, complete=False,
-         bound="3 arguments, each one of `--`, `--k=v`, `x` (27 command lines)"),
     dict(unit="K05.shell_quote_ascii2", harness="k05_shell_quote_ascii2", tags=["C15"], quick=True, complete=False,
          features="autocomplete", bound="all ASCII strings of length 2"),
     dict(unit="K05.shell_quote_ascii3", harness="k05_shell_quote_ascii3", tags=["C15"], quick=False, complete=False,
@@ -51,11 +50,7 @@ UNITS = [
     dict(unit="K14.first_line_two_tokens", harness="k14_first_line_two_tokens", tags=["C12", "C04"], quick=False, complete=False,
          bound="two Text tokens over 2+2 ASCII bytes"),
     # K08 / K09: documentation leaves
-    dict(unit="K08.escape_special_one_fragment", harness="k08_escape_special_one_fragment", tags=["C16"], quick=True, complete=False,
-         features="docgen", bound="one Special/SpecialNoNewline fragment of 2 free ASCII bytes; straight-line checks on the first three output bytes"),
-    dict(unit="K08.escape_spaces_control_line_argument", harness="k08_escape_spaces_control_line_argument", tags=["C16"], quick=True, complete=False,
-         features="docgen", bound="one Spaces fragment: 1 free ASCII byte followed by `x`"),
-    dict(unit="K09.change_style_all_pairs", harness="k09_change_style_all_pairs", tags=["C16"], quick=False, complete=True,
+    dict(unit="K09.change_style_all_pairs", harness="k09_change_style_all_pairs", tags=["C16"], quick=True, complete=True,
          features="docgen", bound="all 8 x 8 style pairs (loop free, full domain)"),
 ]
 
@@ -114,6 +109,8 @@ def _run_one(repo, u, target, work, timeout_s):
             r.update(status="undecided", why="vacuity: a cover! property is unsatisfiable")
         else:
             r.update(status="pass")
+    elif "CBMC failed with status" in out or "CBMC timed out" in out:
+        r.update(status="undecided", why="CBMC aborted (memory limit / internal error): " + "; ".join(re.findall(r"CBMC .*", out))[:200])
     elif "VERIFICATION:- FAILED" in out:
         fc = [x for x in re.findall(r"Failed Checks: (.*)", out)]
         real = [x for x in fc if "unwinding assertion" not in x]
